@@ -87,6 +87,11 @@ def run(chk):
     kinds_props(chk)
     run_kinds_cert(chk, priority=SHAPES)
 
+    # the premise of the relational certificate, from the source: generate_module_tensora (regenerated) builds ONE
+    # definition and ONE graph and maps generate_ir over the requested kinds in order (props/TIE_glue.v)
+    from props._tie import run_tie
+    run_tie(chk, ["glue"])
+
 
 def replay(chk, payload):
     print(json.dumps(payload, indent=1)[:4000])
